@@ -1,7 +1,7 @@
 (** * Vld/ValidatorProofs.v — proofs about the validator model (C04). *)
 From Coq Require Import List NArith ZArith Bool Lia Permutation.
 From ApiFu Require Import Base.Sexp Vld.Ast Vld.Inspect Vld.Literals Vld.TypeInfoModel Vld.TypeInfoPure Vld.ValidatorModel Vld.ValidSpec
-     Vld.Hyps Vld.ProofsCommon Vld.ProofsDirectives Vld.ProofsArguments Vld.ProofsFragDecl Vld.ProofsValues Vld.ProofsOrder.
+     Vld.Hyps Vld.ProofsCommon Vld.ProofsDirectives Vld.ProofsArguments Vld.ProofsFragDecl Vld.ProofsValues Vld.ProofsOrder Vld.ProofsOperations.
 Import ListNotations.
 
 (** ** the primary / secondary filter (validator.go:82-91) *)
@@ -160,4 +160,13 @@ Proof.
   destruct Hv as [Hv | [Hv | [[Hs [Hf Hv]] | [Hs [Hf Hv]]]]]; try congruence.
   - rewrite (H3 Hs Hf) in Hv. discriminate.
   - rewrite (H4 Hs Hf) in Hv. discriminate.
+Qed.
+
+(** the operation rules (5.2.1.1, 5.2.2.1, root types) also hold of an accepted document *)
+Theorem accepted_operations_hold pi S F D :
+  validate_model repaired pi S F D = Done [] ->
+  valid_5_2_1_1 D = true /\ valid_5_2_2_1 D = true /\ valid_root S D = true.
+Proof.
+  intros H. apply validate_model_nil, all_rules_nil in H as [Ho _].
+  apply (rule_operations_iff S F D) in Ho as [H1 [H2 [H3 _]]]. auto.
 Qed.
